@@ -56,6 +56,7 @@ type Options struct {
 	Tier  string
 	Out   string
 	N     int // per-type input budget (0 = tier default)
+	Pairs string
 }
 
 // Main is the entry point of every driver binary.
@@ -68,13 +69,19 @@ func Main() {
 	flag.StringVar(&o.Tier, "tier", "quick", "tier")
 	flag.StringVar(&o.Out, "out", "", "result file")
 	flag.IntVar(&o.N, "n", 0, "inputs per type")
+	flag.StringVar(&o.Pairs, "pairs", "", "pairs file (differential mode)")
 	flag.Parse()
+	res := &Result{Prop: o.Prop, Counters: map[string]int{}, distinct: map[string]bool{}}
+	if o.Pairs != "" {
+		runPairs(o, res)
+		finishResult(o, res)
+		return
+	}
 	mon, ok := monitors[o.Prop]
 	if !ok {
 		fmt.Fprintln(os.Stderr, "unknown property", o.Prop)
 		os.Exit(3)
 	}
-	res := &Result{Prop: o.Prop, Counters: map[string]int{}, distinct: map[string]bool{}}
 	names := strings.Split(o.Cases, ",")
 	sort.Strings(names)
 	for _, name := range names {
@@ -117,6 +124,10 @@ func Main() {
 			}()
 		}
 	}
+	finishResult(o, res)
+}
+
+func finishResult(o Options, res *Result) {
 	res.Distinct = len(res.distinct)
 	for d := range res.distinct {
 		res.DistinctSet = append(res.DistinctSet, fmt.Sprintf("%016x", hashStr(14695981039346656037, d)))
